@@ -2,8 +2,10 @@ package exec
 
 import (
 	"encoding/json"
+	"errors"
 	"fmt"
 	"math"
+	"strconv"
 
 	"github.com/theory/sqljson/path/ast"
 )
@@ -73,6 +75,12 @@ func getJSONInt32(val any, op string) (int, error) {
 				)
 			}
 			num = int64(float)
+		} else if errors.Is(err, strconv.ErrRange) {
+			// A valid JSON number beyond the float64 range, e.g. 1e400.
+			return 0, fmt.Errorf(
+				"%w: jsonpath %v is out of integer range",
+				ErrVerbose, op,
+			)
 		} else {
 			// json.Number should never be invalid.
 			return 0, fmt.Errorf(
